@@ -212,7 +212,7 @@ def main(argv: list[str]) -> int:
         # -------------------------------------------------------------- corpus (regressions)
         cdir = VERIF / "corpus" / pid
         ncorpus = 0
-        if cdir.is_dir():
+        if cdir.is_dir() and not os.environ.get("VERIF_NO_CORPUS"):
             for f in sorted(cdir.glob("*.json")):
                 body = json.loads(f.read_text())
                 sub = subs.get(body["sub"])
